@@ -15,7 +15,9 @@ LEVEL_TEXT = ("Lean 4 theorems about the transcription of Factory.fromJson / eve
               "version; every toJson document is accepted. The schema table is regenerated from /repo's AST on every run and compared "
               "with the model's table by `decide` (schema_matches), so an edited key list breaks a proof obligation; all single-point "
               "mutations of generated documents are loaded on model and implementation, and an accepted document must re-serialise "
-              "to itself.")
+              "to itself. Also proved for EVERY document: what is accepted is an immutable aggregator of known content types, a "
+              "SparselyBin with two spellings of one bin index and a Bag with a repeated value are rejected, and an accepted document "
+              "whose aggregator is well-formed and uniform is a fixed point of the round trip (decode_stable_of_good).")
 LEVEL_NOTE = ("Five lenient acceptances of the code are listed known findings and kept out of the generated mutations; the model mirrors "
               "the harmless bool-as-number leniency. 'Accepted implies faithful' is decided by the oracle on the implementation, not "
               "by a theorem.")
